@@ -940,7 +940,7 @@ def drv_poly_history(case):
     I2 = lambda rows: [[proj.I(x) for x in r] for r in rows]
     for call in case["calls"]:
         st = {"call": call, "exc": "", "res": 0, "new": {"rows": [], "cols": [], "index": []}, "fixed": [], "val": [], "rflags": [],
-              "points": [], "ndim": 1, "vars": []}
+              "points": [], "ndim": 1, "vars": [], "pshape": [], "rshape": []}
         try:
             cols = list(P.variables)[1:]
             if call == "A": st["res"] = I2(L(P.A)) if P.shape[0] else []
@@ -967,6 +967,7 @@ def drv_poly_history(case):
                 fn = {"sat": P.ineqs_satisfied, "sep": P.separable, "rowsep": P.ineq_separate_points}[call]
                 r = numpy.asarray(fn(arr))
                 st["points"], st["ndim"] = pts, int(arr.ndim)
+                st["pshape"], st["rshape"] = [int(x) for x in arr.shape], [int(x) for x in r.shape]
                 st["res"] = proj.I(r) if r.ndim == 0 else _nest((r * 1).tolist())
             elif call == "idx":
                 st["vars"] = [{"id": tok(v.id), "lo": proj.I(v.bounds.lower), "hi": proj.I(v.bounds.upper)} for v in list(P.variables)]
@@ -1032,9 +1033,12 @@ def drv_classify(case):
         arr = arr0.astype(dts[k % len(dts)])
         order = [("sat", Q.ineqs_satisfied), ("sep", Q.separable), ("rowsep", Q.ineq_separate_points)]
         order = order[k % 3:] + order[:k % 3]            # the three queries in rotating order on the same object
-        res = {name: lst(fn(arr)) for name, fn in order}
+        raw = {name: numpy.asarray(fn(arr)) for name, fn in order}
+        res = {name: lst(v) for name, v in raw.items()}
+        # the shapes are recorded as well: an answer of another shape is judged by its shape (values of different shapes cannot be compared)
         out.append({"op": "classify", "rows": qbase["rows"], "cols": qbase["cols"], "ndim": int(arr.ndim), "points": pts,
-                    "sat": res["sat"], "sep": res["sep"], "rowsep": res["rowsep"], "dtype": str(arr.dtype)})
+                    "sat": res["sat"], "sep": res["sep"], "rowsep": res["rowsep"], "dtype": str(arr.dtype), "pshape": [int(x) for x in arr.shape],
+                    "shapes": {name: [int(x) for x in v.shape] for name, v in raw.items()}})
     if case.get("k", 0) % 3 == 1 and base["cols"] and base["rows"]:
         # other public operations on the same polyhedron first (their results are not used): it still answers for its own rows
         cv = numpy.full(len(base["cols"]), numpy.nan)
